@@ -465,8 +465,36 @@ func assignedVars(info *types.Info, n ast.Node) (map[types.Object]bool, bool) {
 	return vars, heap
 }
 
-func (e *Eng) havocVars(st *State, vars map[types.Object]bool) {
-	for _, g := range e.ghosts {
+// ghostsAssignedIn returns the ghost variables updated by at-clauses anchored at calls inside n.
+func (e *Eng) ghostsAssignedIn(n ast.Node) map[types.Object]bool {
+	out := map[types.Object]bool{}
+	if e.con == nil || len(e.con.At) == 0 {
+		return out
+	}
+	ast.Inspect(n, func(x ast.Node) bool {
+		if c, ok := x.(*ast.CallExpr); ok {
+			t := e.srcFull(c)
+			keys := []string{t}
+			if ord, ok := e.callOrd[c]; ok {
+				keys = append(keys, fmt.Sprintf("%s#%d", t, ord))
+			}
+			for _, k := range keys {
+				for _, cl := range e.con.At[k] {
+					if cl.Kind == "ghost" {
+						if g, ok := e.ghosts[cl.Name]; ok {
+							out[g] = true
+						}
+					}
+				}
+			}
+		}
+		return true
+	})
+	return out
+}
+
+func (e *Eng) havocVars(st *State, vars map[types.Object]bool, body ast.Node) {
+	for g := range e.ghostsAssignedIn(body) {
 		vars[g] = true
 	}
 	for o := range vars {
@@ -515,7 +543,7 @@ func (e *Eng) execFor(st *State, s *ast.ForStmt) *State {
 	e.checkInvs(st, invs, ord, "entry", s.Pos())
 	mod, heap := assignedVars(e.info, s)
 	head := st.clone()
-	e.havocVars(head, mod)
+	e.havocVars(head, mod, s)
 	if heap {
 		e.havocHeap(head)
 	}
@@ -600,7 +628,7 @@ func (e *Eng) execRange(st *State, s *ast.RangeStmt) *State {
 	e.checkInvs(st, invs, ord, "entry", s.Pos())
 	mod, heap := assignedVars(e.info, s.Body)
 	head := st.clone()
-	e.havocVars(head, mod)
+	e.havocVars(head, mod, s.Body)
 	if heap {
 		e.havocHeap(head)
 	}
@@ -634,13 +662,11 @@ func (e *Eng) execRange(st *State, s *ast.RangeStmt) *State {
 	return e.merge(outs)
 }
 
-var runesDeclared = map[*Eng]bool{}
-
 func (e *Eng) ensureRunes() {
-	if runesDeclared[e] {
+	if e.runesDone {
 		return
 	}
-	runesDeclared[e] = true
+	e.runesDone = true
 	e.decls = append(e.decls,
 		"(declare-fun runeat (Str Int) Int)", "(declare-fun runew (Str Int) Int)", "(declare-fun runeok (Str Int) Bool)",
 		`(assert (forall ((s Str) (i Int)) (! (=> (and (<= 0 i) (< i (slen s)))
